@@ -155,6 +155,16 @@ func truncateBoundsSSA(r *Run, f *FuncInfo) {
 				continue
 			}
 			if !c.runes {
+				// a text of at most size BYTES has at most size characters: a byte count may decide "it fits"
+				// (the short cut before the runes are counted), and says nothing otherwise
+				if c.of == sParam && (c.rel == token.LEQ || c.rel == token.LSS || c.rel == token.EQL) && optionValue(p, c.size, opts, "size") {
+					sFits = true
+					size = c.size
+					continue
+				}
+				if c.of == sParam && (c.rel == token.GTR || c.rel == token.GEQ || c.rel == token.NEQ) {
+					continue
+				}
 				failR4("size is compared with a BYTE length: a string of at most size characters but more bytes is cut although it fits")
 			}
 			if c.of == sParam {
